@@ -22,6 +22,7 @@ check-lua-pattern (none / `value` group / whole match / no match), outcome kind 
 import itertools
 import json
 import random
+import re
 import sys
 
 import z3
@@ -156,16 +157,59 @@ def install_lua(I, prog, scripts, calls):
         if sp[0] == 'runtime_error':
             return ReadyFut(Err(Opaque('LuaError', 'runtime error')))
         if sp[0] == 'nonstring':
-            return ReadyFut(Ok(lua_value(sp[1], Opaque('payload'))))
-        if sp[0] == 'string':
-            return ReadyFut(Ok(lua_value('String', Struct('LuaString', (SString(tuple(sp[1]), I2.new_alloc()),)))))
-        return ReadyFut(Ok(lua_value('Nil')))
+            val = lua_value(sp[1], Opaque('payload'))
+        elif sp[0] == 'string':
+            val = lua_value('String', Struct('LuaString', (SString(tuple(sp[1]), I2.new_alloc()),)))
+        else:
+            val = lua_value('Nil')
+        return ReadyFut(from_lua(I2, ci, val))
     st['LuaFunction::call_async'] = call_async
     st['Function::call_async'] = call_async
     st['LuaString::to_str'] = lambda I2, a, ci, dt: Ok(as_sstr(I2, I2.deref_value(a[0]).f[0]))
     st['String::to_str'] = st['LuaString::to_str']
     st['LuaValue::type_name'] = lambda I2, a, ci, dt: SStr(tuple(I2.deref_value(a[0]).vname.lower().encode()), -1, 0)
     st['Value::type_name'] = st['LuaValue::type_name']
+
+
+NUMBER_TEXT = {'Integer': b'42', 'Number': b'1.5'}
+
+
+def from_lua(I, ci, val):
+    """mlua's FromLua for the result type the call site asks for (first generic argument of
+    call_async): Value = as is; String / Option<String> accept Lua strings and, by Lua's coercion,
+    numbers; nil is None for Option and an error otherwise; every other type is a conversion error."""
+    m = re.search(r'call_async::<(.*)$', ci.raw)
+    ty = 'LuaValue'
+    if m:
+        depth = 0
+        cur = ''
+        for ch in m.group(1):
+            if ch in '<([':
+                depth += 1
+            elif ch in '>)]':
+                if depth == 0:
+                    break
+                depth -= 1
+            if ch == ',' and depth == 0:
+                break
+            cur += ch
+        ty = cur.strip()
+    last = ty.split('<')[0].split('::')[-1]
+    if last in ('LuaValue', 'Value'):
+        return Ok(val)
+    opt_ = last == 'Option'
+    inner = ty[ty.index('<') + 1:ty.rindex('>')].strip().split('::')[-1] if opt_ else last
+    if inner not in ('String', 'LuaString', 'BorrowedStr'):
+        raise Unmodelled('FromLua for %s' % ty)
+    if val.vname == 'Nil':
+        return Ok(NONE) if opt_ else Err(Opaque('LuaError', 'FromLuaConversionError nil -> String'))
+    if val.vname == 'String':
+        s = val.f[0].f[0]
+    elif val.vname in NUMBER_TEXT:
+        s = SString(tuple(NUMBER_TEXT[val.vname]), I.new_alloc())
+    else:
+        return Err(Opaque('LuaError', 'FromLuaConversionError %s -> String' % val.vname))
+    return Ok(Some(s)) if opt_ else Ok(s)
 
 
 def seq_ne(a, b):
@@ -181,7 +225,7 @@ def seq_ne(a, b):
     return zor(ds)
 
 
-PATTERNS = {'group': b'k=(?P<value>[y"]+)', 'plain': b'[y"]+'}
+PATTERNS = {'group': b'k=(?P<value>[y"]+)', 'plain': b'[y"]+', 'edge': b'[ \ty]+'}
 
 
 def build_content(I, name, bs):
@@ -192,6 +236,12 @@ def build_content(I, name, bs):
     if pat is None:
         core = [I.fresh_byte('%s_c%d' % (name, i), TEXT_ALPHA if 0 < i < bs['core'] - 1 else tuple(b'y"\'\\')) for i in range(bs['core'])]
         return lead + core + trail, tuple(core)
+    if pat == 'edge':
+        # the whole match reaches both ends of the block content: blanks are part of what is selected
+        lead = [I.fresh_byte('%s_l%d' % (name, i), (32, 9)) for i in range(bs['lead'])]
+        trail = [I.fresh_byte('%s_t%d' % (name, i), (32, 9)) for i in range(bs['trail'])]
+        core = [121] * max(bs['core'], 1)
+        return lead + core + trail, tuple(lead + core + trail)
     core = [I.fresh_byte('%s_c%d' % (name, i), tuple(b'y"')) for i in range(bs['core'])]
     if pat == 'group':
         # text · k= · VALUE · ; — the text before may hold value letters (the match decides, not a search)
@@ -255,12 +305,14 @@ def run_task(task):
         ctx = mk_context(prog, I, files)
         install_lua(I, prog, scripts, calls)
         I.task_order = lambda n, step: I.concretize(I.fresh_int('ord%d_%d' % (step, n), 0, n - 1), 'task order') if n > 1 else 0
-        holder.update(blocks=blocks, calls=calls, files=files)
+        holder.update(blocks=blocks, calls=calls, files=files, I=I)
         vbox = Ref(Cell(Struct('CheckLuaValidator', ())), ())
         return I.call_fn(f_run, [ctx, VecVal(()), VecVal([vbox])])
 
     def witness(m):
         w = dict(files={}, blocks=[])
+        if getattr(holder.get('I'), '_cores', None) is not None:
+            w['cores'] = mval(m, holder['I']._cores)
         for path, src, _b in holder['files']:
             w['files'][path.decode()] = model_bytes(m, src).decode('latin1')
         for b in holder['blocks']:
@@ -480,7 +532,12 @@ def check_real(binary, w):
             p = os.path.join(d, name)
             os.makedirs(os.path.dirname(p), exist_ok=True)
             open(p, 'wb').write(content)
-        r = run_blockwatch(binary, d, ['**/*.md'], stdin=b'', env_extra={'BLOCKWATCH_LUA_MODE': 'safe'}, timeout=60)
+        if w.get('cores'):
+            # the number of cores the process sees is part of the witness (std::thread::available_parallelism)
+            r = run_blockwatch('taskset', d, ['-c', '0-%d' % (w['cores'] - 1), binary, '**/*.md'], stdin=b'',
+                               env_extra={'BLOCKWATCH_LUA_MODE': 'safe'}, timeout=60)
+        else:
+            r = run_blockwatch(binary, d, ['**/*.md'], stdin=b'', env_extra={'BLOCKWATCH_LUA_MODE': 'safe'}, timeout=60)
         try:
             log = open(os.path.join(d, 'calls.log'), 'rb').read().decode('latin1')
         except OSError:
@@ -518,7 +575,10 @@ def tasks_for(tier):
         for core in (0, 1, 2):
             T.append(dict(files=[[B(pattern=pat, core=core, lead=1, trail=1, outcome='string')]]))
         T.append(dict(files=[[B(pattern=pat, core=2, pre=2, outcome='nil')]]))
+    for lead, trail in ((1, 0), (0, 1), (2, 1)):
+        T.append(dict(files=[[B(pattern='edge', core=1, lead=lead, trail=trail, outcome='string')]]))
     T.append(dict(files=[[B(core=3, lead=2, trail=2, outcome='string', msg_len=3)]]))
+    T.append(dict(files=[[B(core=0, lead=2, trail=0, outcome='string')]]))       # blank content: still one call
     T.append(dict(files=[[B(core=1, outcome='string', msg_len=0)]]))
     # several blocks: every pair of outcomes among ok / failing, one or two files, plain block between
     for a, b in itertools.product(['nil', 'string', 'runtime_error', 'nonstring'], repeat=2):
@@ -567,7 +627,8 @@ def main(tier):
                                           'BLOCKWATCH_LUA_MODE=safe (the scripts log their arguments to the path in their first line); expected %s; %s'
                                           % (json.dumps(r['expected'])[:300], v['summary']), v)
                 rs = os.path.join(v['replay'], 'replay.sh')
-                open(rs, 'w').write('#!/bin/sh\n# %s\ncd "$(dirname "$0")" && BLOCKWATCH_LUA_MODE=safe "${BLOCKWATCH:-blockwatch}" \'**/*.md\' < /dev/null\n' % v['summary'])
+                pre = ('taskset -c 0-%d ' % (v['witness']['cores'] - 1)) if v['witness'].get('cores') else ''
+                open(rs, 'w').write('#!/bin/sh\n# %s\ncd "$(dirname "$0")" && BLOCKWATCH_LUA_MODE=safe %s"${BLOCKWATCH:-blockwatch}" \'**/*.md\' < /dev/null\n' % (v['summary'], pre))
                 got = v
                 break
         final.append(got or vs[0])
